@@ -211,10 +211,11 @@ EXPORT char *_stpcpy_s_chk(char *restrict dest, rsize_t dmax,
                 if (dmax > 0x20)
                     memset(dest, 0, dmax);
                 else {
+                    char *slack = dest; /* dest must keep pointing to the null */
                     while (dmax) {
-                        *dest = '\0';
+                        *slack = '\0';
                         dmax--;
-                        dest++;
+                        slack++;
                     }
                 }
 #endif
